@@ -71,8 +71,7 @@ CanaryRules == {"ref_ok", "ref_sibling", "ref_ext_sibling", "unresolved", "extra
                 "default_mismatch", "example_mismatch", "in_invalid", "bad_style", "description_missing",
                 "content_missing", "responses_missing", "value_missing", "operation_missing", "url_missing",
                 "default_missing", "dup_param", "examples_mismatch", "value_and_external", "null_member"}
-CanaryVars == {"min", "ref", "external", "bogus", "number", "body", "form", "simple", "absent", "twice", "query_simple", "both", "null"}
-ModeVars == {m.bad : m \in ModeLeaves \cup MapLeaves} \cup {m.ok : m \in ModeLeaves \cup MapLeaves}
+CanaryVars == {"min", "ref", "external", "bogus", "number", "body", "form", "simple", "absent", "twice", "query_simple", "both", "null", "bogus_on_empty"}
 Canary(lf) == (lf.rule \in CanaryRules \cup {"none"}) /\ lf.var \in CanaryVars \cup ModeVars
 (* a leaf whose verdict depends on the mode of the place: the violation where the mode is in viol, the conforming twin elsewhere; *)
 (* tried at media types and headers everywhere, at schemas where they are the schema of a media type / parameter / header / component *)
